@@ -10,6 +10,8 @@ RULE = ("byte strings chosen first (every byte value, empty, odd/even, up to the
         "the REAL pcap at the builder's header length must equal the chosen bytes. io::bufio read(n)/read_all sequences must partition "
         "the buffer. Non-trivial = non-empty payload; distinct = (builder, spelling plan, bytes)")
 
+PROOF_MODULES = ['Resynth.Props.C05', 'Resynth.Props.C05Builders']
+
 TEXT_OK = set(range(0x20, 0x7f)) - {0x22, 0x7c}
 
 
@@ -139,6 +141,19 @@ def campaign(c):
             c.violation('payload:rejected', '%s: a well-formed payload expression was rejected: %s' % (name, impl['outcome'],), rep)
         c.count('builder:' + name)
         c.case(key, dict(builder=name, expr=e[:200], n=len(b)) if key and i % 25 == 0 else None)
+    # join helpers with empty parts in every position (leading, middle, trailing, all empty)
+    import itertools
+    for n in (1, 2, 3, 4):
+        for shape in itertools.product([b'', b'x', b'ab'], repeat=n):
+            for fn, sep in (('text::crlflines', b'\r\n'), ('text::concat', b'')):
+                want = sep.join(shape)
+                args = ', '.join('"%s"' % p.decode() if r_ % 2 or p else '"||"' for r_, p in enumerate(shape))
+                src = (HEAD + 'eth::frame("|000000000001|", "|000000000002|", %s(%s));\n' % (fn, args)).encode()
+                impl, model = progdiff.run_both(c, src)
+                progdiff.compare(c, src, impl, model, 'join')
+                if impl['outcome'][0] != 'success' or progdiff.pcap_records(impl['file'])[0][1][14:] != want:
+                    c.violation('payload:join', '%s(%s) does not join its parts in order' % (fn, args), dict(src=src.decode()))
+                c.case(('join', fn, shape), dict(kind='join', fn=fn, parts=[p.decode() for p in shape]) if n == 3 and shape[0] == b'' and shape[1] == b'x' else None)
     # every single byte value, in text form where possible and hex form always
     for v in range(256):
         forms = ['"|%02x|"' % v]
